@@ -40,7 +40,7 @@ def generate(src):
             return super().assign(tgt, v, st, k, K)
     H = {'pydantic.TypeAdapter': lambda ex_, st_, e, r, a, kw, k, K: k(st_, adapter_for(to_val(a[0]))), 'repr': lambda ex_, st_, e, r, a, kw, k, K: k(st_, fresh('repr')),
          'id': lambda ex_, st_, e, r, a, kw, k, K: k(st_, fresh('id')), 'hash': lambda ex_, st_, e, r, a, kw, k, K: k(st_, fresh('hash')), 'str': lambda ex_, st_, e, r, a, kw, k, K: k(st_, fresh('str'))}
-    ex = Ex(H); annot = fresh('annot'); st = State(); st.env = {'annot': annot}; st.facts = list(AX); n = [0]
+    ex = Ex(H); ex.allowed_decorators = ('lru_cache', 'cache'); annot = fresh('annot'); st = State(); st.env = {'annot': annot}; st.facts = list(AX); n = [0]   # the memoisation obligation below is what makes the cache transparent
     oblige(st, "create_type_adapter/memoisation: cached (if at all) by functools.lru_cache on the annotation itself  [C08]", BoolVal(all(d in ('lru_cache()', 'lru_cache', 'functools.lru_cache()', 'functools.lru_cache', 'lru_cache(maxsize=None)', 'cache', 'functools.cache') for d in decos)))
     def c_ret(s, v):
         n[0] += 1
@@ -56,7 +56,9 @@ def generate(src):
             return super().find_handler(name, recv)
     ex2 = Ex2({'create_type_adapter': h_cta}); ex2.no_pure_fallback = True; obj = fresh('obj')
     oblige(State(), "parse_obj_as/memoisation: the CONVERSION RESULT is never cached (every call validates again: two messages with equal raw values must not share one parsed, possibly mutable, object)  [C06/C08]",
-           BoolVal(not POA.decorator_list and not any(isinstance(n_, ast.Call) and ast.unparse(n_.func).split('.')[-1] in ('lru_cache', 'cache') for n_ in ast.walk(POA)))); st2 = State(); st2.env = {'annot': annot, 'obj': obj}; st2.facts = list(AX)
+           BoolVal(not POA.decorator_list and not any(isinstance(n_, ast.Call) and ast.unparse(n_.func).split('.')[-1] in ('lru_cache', 'cache') for n_ in ast.walk(POA))
+                   and not any(fd_.decorator_list for fd_ in ast.walk(src.tree(REL)) if isinstance(fd_, (ast.FunctionDef, ast.AsyncFunctionDef)) and fd_.name != CTA.name
+                               and any(isinstance(n_, ast.Call) and isinstance(n_.func, ast.Name) and n_.func.id == fd_.name for n_ in ast.walk(POA))))); st2 = State(); st2.env = {'annot': annot, 'obj': obj}; st2.facts = list(AX)
     ex2.run(POA, st2, lambda s, v: (oblige(s, "parse_obj_as/post: the value is converted by the adapter of ITS annotation: result == conv(annot, obj)  [C08]", to_val(v) == validate(annot, obj)), reach(s, "parse_obj_as/reach@return")),
             lambda s, x: None)
     # ---------------- model_validate: result backends load a stored TaskiqResult through it - it must go through the model's validators
